@@ -18,8 +18,11 @@ B  tie: (1) every generated sheet through the model (`sheets.all`) vs what the R
    (quick) / ≤ 6 (thorough) over that alphabet and on hand-made unusual texts; model load_csv vs
    the project's load_csv on file bytes (tablib exports, harness-written files, mutated and
    non-UTF-8 files); UTF-8 codec; the field limit at 131072 / 131073; the dialect constants;
-   (5) JSON string literals: model encodeString vs json.dumps(ensure_ascii=False) and model
-   scanStr vs json.decoder.scanstring, exhaustive short inputs + random escape sequences.
+   (5) JSON: model encodeString vs json.dumps(ensure_ascii=False) and model scanStr vs
+   json.decoder.scanstring (exhaustive short inputs + random escape sequences); model json.loads
+   vs real on every text of length ≤ 5 / ≤ 6 over { } [ ] " : , space a LF; model to_json text ==
+   the real convert output and model JSONSheetReader == real reader on those bytes (every
+   workbook of the read stream) and on foreign-style / damaged JSON files.
 C  direct oracle: workbooks written by the harness as CSV folder (Python `csv`), XLSX
    (openpyxl, text cells) and JSON (real `convert_to_json` from the CSV AND from the XLSX) must
    be read by `create_sheet_reader(fmt, path).sheets` into exactly what was written, cell by
@@ -41,10 +44,10 @@ import tempfile
 from .. import core, par
 
 MANIFEST = dict(
-    text="Proof (partial): Lean theorems json_roundtrip (to_json then JSONSheetReader is the identity on rectangular sheets with distinct headers and at least one row), xlsx_sanitize_id / xlsx_sanitize_grid (XLSXSheetReader._sanitize is the identity on what openpyxl delivers for rectangular text sheets with non-empty headers and no all-empty row), sanitize_idem (for every grid), csv_read_id (tablib's CSV record loop), and — the CSV byte format being inside the model (Python csv.writer with the excel dialect tablib uses, text-file line iteration with newline='', the csv.reader state machine with its 131072-character field limit, UTF-8) — csv_read_write (reader(writer(records)) = records for ALL lists of records: any shape, empty records, cells with commas, quotes, CR, LF, any Unicode, up to the field limit), writeCsv_injective (unconditional), csv_reader_grammar (the reader is correct on every text of the CSV grammar: CRLF or LF records, each field quoted-with-doubled-quotes or plain), csv_read_write_dialect (LF / QUOTE_ALL writers; the LF+QUOTE_MINIMAL writer of CPython 3.12 needs CR-free cells: lf_minimal_loses_cr), csv_file_roundtrip (tablib export -> UTF-8 bytes -> load_csv is the identity on rectangular sheets with a header), csv_read_write_iff / csv_unfit_raises / csv_reader_total / loadCsv_errors (the guard is exact; on every text the only failures are the field limit, non-UTF-8 bytes and tablib's InvalidDimensions), json_string_roundtrip (a JSON string literal as json.dumps(ensure_ascii=False) writes it is read back by the strict scanner of json.load as the same text, for every string), formats_agree / c14_partial (the three readers deliver the same sheet: proved for the CSV bytes, relative to the XLSX and JSON byte formats being faithful) and convert_then_read / convert_then_compile (convert followed by compilation = compiling the source, for any compiler that is a function of the sheets), each hypothesis shown necessary by a kernel-checked witness that is replayed on the real code. The model of the csv library is tied to the real csv module on every run (exhaustive small grids and texts over {a , \" CR LF space e-acute}, random larger grids, hand-made unusual texts, mutated and non-UTF-8 files through the project's load_csv, the field limit at its real value), the model of JSON string literals to json.dumps / json.decoder.scanstring (exhaustive short strings and texts, random escape sequences). The quantifier over cell contents for the XLSX / JSON byte formats (openpyxl / tablib / json) is carried by the harness: generated workbooks (1-6 sheets, 1-15 rows, unique non-empty headers, empty cells, commas, quotes, newlines, | ; \\, leading = and ', numeric- and boolean-looking text, leading/trailing blanks, non-ASCII and astral characters) are written as CSV folder, XLSX and JSON (real convert_to_json from both), read back by the real readers and compared cell by cell with what was written and with the model; compilable workbooks are compiled by the real create_flows from every format and compared up to invented UUIDs.",
+    text="Proof (partial): Lean theorems json_roundtrip (to_json then JSONSheetReader is the identity on rectangular sheets with distinct headers and at least one row), xlsx_sanitize_id / xlsx_sanitize_grid (XLSXSheetReader._sanitize is the identity on what openpyxl delivers for rectangular text sheets with non-empty headers and no all-empty row), sanitize_idem (for every grid), csv_read_id (tablib's CSV record loop), and — the CSV byte format being inside the model (Python csv.writer with the excel dialect tablib uses, text-file line iteration with newline='', the csv.reader state machine with its 131072-character field limit, UTF-8) — csv_read_write (reader(writer(records)) = records for ALL lists of records: any shape, empty records, cells with commas, quotes, CR, LF, any Unicode, up to the field limit), writeCsv_injective (unconditional), csv_reader_grammar (the reader is correct on every text of the CSV grammar: CRLF or LF records, each field quoted-with-doubled-quotes or plain), csv_read_write_dialect (LF / QUOTE_ALL writers; the LF+QUOTE_MINIMAL writer of CPython 3.12 needs CR-free cells: lf_minimal_loses_cr), csv_file_roundtrip (tablib export -> UTF-8 bytes -> load_csv is the identity on rectangular sheets with a header), csv_read_write_iff / csv_unfit_raises / csv_reader_total / loadCsv_errors (the guard is exact; on every text the only failures are the field limit, non-UTF-8 bytes and tablib's InvalidDimensions), and — the JSON byte format being inside the model too (json.dumps(ensure_ascii=False, indent=2) and json.loads for strings / arrays / objects, the book value of to_json, text-mode reading, the JSONSheetReader loop) — json_string_roundtrip (string literals, every string), json_document_roundtrip (loads(dumps(v)) = v for every value with distinct keys), json_file_roundtrip (to_json -> UTF-8 bytes -> JSONSheetReader is the identity on workbooks of rectangular sheets with distinct headers, at least one row and distinct names), formats_agree / c14_partial (the three readers deliver the same sheets: proved for the CSV and JSON bytes, relative to the XLSX byte format being faithful) and convert_then_read / convert_then_compile (convert followed by compilation = compiling the source, for any compiler that is a function of the sheets), each hypothesis shown necessary by a kernel-checked witness that is replayed on the real code. The model of the csv library is tied to the real csv module on every run (exhaustive small grids and texts over {a , \" CR LF space e-acute}, random larger grids, hand-made unusual texts, mutated and non-UTF-8 files through the project's load_csv, the field limit at its real value), the model of the json library to json.dumps / json.decoder.scanstring / json.loads / the real convert output and JSON reader (exhaustive short strings and texts, random escape sequences, every real convert output of the run byte for byte, foreign-style and damaged JSON files). The quantifier over cell contents for the XLSX byte format (openpyxl / tablib) is carried by the harness: generated workbooks (1-6 sheets, 1-15 rows, unique non-empty headers, empty cells, commas, quotes, newlines, | ; \\, leading = and ', numeric- and boolean-looking text, leading/trailing blanks, non-ASCII and astral characters) are written as CSV folder, XLSX and JSON (real convert_to_json from both), read back by the real readers and compared cell by cell with what was written and with the model; compilable workbooks are compiled by the real create_flows from every format and compared up to invented UUIDs.",
     ref="§5 C14",
-    note="PARTIAL: the XLSX and JSON byte formats are library code (openpyxl, tablib xlsx import, json) and are exercised, not modelled; the CSV byte format (csv.writer / csv.reader / line iteration / UTF-8) IS modelled, proved to round-trip for all grids and tied to the real csv module; JSON string literals (escaping and the strict scanner) are modelled and proved to round-trip, the JSON document structure (objects / arrays / indentation) is not; the repo's own post-processing is modelled and proved. Trusts: Lean kernel (axioms audited each run), that the Lean model of CPython's _csv.c / text-file line iteration is faithful beyond the exhaustively and randomly compared inputs, harness writers (openpyxl text cells) and Driver JSON codec. Known findings: F-C14-a (all-empty row kept by CSV/JSON, dropped by XLSX: a compile differs), F-C14-b (header-only sheet loses its headers through convert: JSON compile crashes). (F-C14-c, CR/CRLF in CSV cells, was fixed in /repo.)",
-    technique="Lean 4 proof of the readers' post-processing (induction over the row loops) and of the CSV byte format (csv.writer / csv.reader automaton: invariant over records, fields and characters of a machine fusing the line iterator with the reader) + exhaustive/random differential tie of that model against the real csv module + generated three-format differential run on the real readers and compiler",
+    note="PARTIAL: the XLSX byte format is library code (openpyxl zip + XML, tablib xlsx import) and is exercised, not modelled; the CSV byte format (csv.writer / csv.reader / line iteration / UTF-8) and the JSON byte format (json.dumps with indent / json.loads restricted to strings, arrays and objects / text-mode reading) ARE modelled, proved to round-trip (all grids / all workbooks in the domain) and tied to the real csv and json modules; the repo's own post-processing is modelled and proved. Trusts: Lean kernel (axioms audited each run), that the Lean models of CPython's _csv.c, _json.c / json.encoder and text-file reading are faithful beyond the exhaustively and randomly compared inputs (the interpreter's recursion limit for deeply nested JSON is not modelled), harness writers (openpyxl text cells) and Driver JSON codec. Known findings: F-C14-a (all-empty row kept by CSV/JSON, dropped by XLSX: a compile differs), F-C14-b (header-only sheet loses its headers through convert: JSON compile crashes). (F-C14-c, CR/CRLF in CSV cells, was fixed in /repo.)",
+    technique="Lean 4 proof of the readers' post-processing (induction over the row loops) and of the CSV and JSON byte formats (csv.writer / csv.reader automaton: invariant over records, fields and characters of a machine fusing the line iterator with the reader; json.dumps / json.loads: mutual structural induction over values, elements and members with a fuel-indexed recursive-descent reader) + exhaustive/random differential tie of those models against the real csv and json modules + generated three-format differential run on the real readers and compiler",
 )
 
 # --------------------------------------------------------------------------- cell / header pools
@@ -264,6 +267,13 @@ def model_table(ans):
     return {"__err__": ans.get("err", ans.get("__error__"))}
 
 
+def model_book(ans):
+    """{"ok": [{"name","headers","rows"}…]} → same shape as read_sheets"""
+    if isinstance(ans, dict) and "ok" in ans:
+        return {t["name"]: {"headers": (t["headers"] or None), "rows": t["rows"]} for t in ans["ok"]}
+    return {"__err__": (ans.get("err") or ans.get("__error__")) if isinstance(ans, dict) else str(ans)}
+
+
 # --------------------------------------------------------------------------- worker: read identity + tie
 
 
@@ -374,6 +384,35 @@ def read_worker(seeds):
             count("csv_bytes_through_model_load_csv")
             if mt != real_t and len(out["ties"]) < 10:
                 out["ties"].append({"what": "model load_csv on the written CSV bytes and real CSV reader differ", "sheet": s, "style": styles[wi], "model": mt, "real": real_t, "seed": pending[wi][3]})
+        # B (bytes): the JSON text the real convert wrote — model to_json text == real text, and the
+        # model's JSONSheetReader on those bytes == the real JSON reader
+        reqs3, owners3 = [], []
+        for wi, (sheets, texts, got_by, seed) in enumerate(pending):
+            by_name = {s["name"]: s for s in sheets}
+            for label in ("json<csv", "json<xlsx"):
+                if texts[label] is None:
+                    continue
+                try:
+                    order = list(json.loads(texts[label])["sheets"].keys())
+                except Exception:  # noqa: BLE001
+                    continue
+                if sorted(order) != sorted(by_name):
+                    continue        # a read difference: reported by C above
+                reqs3.append({"op": "jsontext.dumpbook", "sheets": [by_name[n] for n in order]})
+                owners3.append((wi, label, "dump"))
+                reqs3.append({"op": "jsontext.loadbook", "bytes": list(texts[label].encode("utf-8"))})
+                owners3.append((wi, label, "load"))
+        for (wi, label, what), ans in zip(owners3, drv.results(reqs3)):
+            sheets, texts, got_by, seed = pending[wi]
+            count("json_bytes_through_model_" + what)
+            if what == "dump":
+                if ans != texts[label] and len(out["ties"]) < 10:
+                    out["ties"].append({"what": f"model to_json text and real convert_to_json text ({label}) differ", "workbook": sheets, "model": str(ans)[:600], "real": texts[label][:600], "seed": seed})
+            else:
+                real = got_by[label]
+                mt = model_book(ans)
+                if mt != real and len(out["ties"]) < 10:
+                    out["ties"].append({"what": f"model JSONSheetReader on the convert output ({label}) and real JSON reader differ", "workbook": sheets, "model": str(mt)[:600], "real": str(real)[:600], "seed": seed})
         json_pairs_cache = {}
         prev = None
         for (wi, s), ans in zip(owners, answers):
@@ -1151,6 +1190,166 @@ def json_string_tasks(ck: core.Check, quick: bool):
     return [("enc", sh) for sh in core.shard(enc, par.NPROC)] + [("scan", sh) for sh in core.shard(scan, par.NPROC)]
 
 
+# --------------------------------------------------------------------------- JSON documents: model json.loads / JSONSheetReader vs real
+
+JSON_DOC_ALPHA = ["{", "}", "[", "]", "\"", ":", ",", " ", "a", "\n"]
+JSON_ERR_NEEDLES = {"expectingValue": "Expecting value", "expectingPropertyName": "Expecting property name", "expectingColon": "Expecting ':'", "expectingComma": "Expecting ','",
+                    "extraData": "Extra data", "unterminated": "Unterminated string", "controlChar": "Invalid control", "invalidEscape": "Invalid \\escape",
+                    "invalidUnicodeEscape": "Invalid \\uXXXX", "bom": "BOM"}
+
+
+def jv_enc(v):
+    if isinstance(v, str):
+        return v
+    if isinstance(v, list):
+        return {"a": [jv_enc(x) for x in v]}
+    if isinstance(v, dict):
+        return {"o": [[k, jv_enc(x)] for k, x in v.items()]}
+    raise ValueError("unsupported")
+
+
+def real_json_loads(t: str):
+    try:
+        v = json.loads(t)
+    except json.JSONDecodeError as e:
+        return {"err": str(e)}
+    try:
+        return {"ok": jv_enc(v)}
+    except ValueError:
+        return {"err": "unsupported"}
+
+
+def json_loads_agree(model, real) -> bool:
+    if "ok" in real:
+        return model == real
+    if not isinstance(model, dict) or "err" not in model:
+        return False
+    return model["err"] == real["err"] or JSON_ERR_NEEDLES.get(model["err"], "\x00") in real["err"]
+
+
+def json_doc_text_worker(texts):
+    drv = core.Driver()
+    out = {"n": 0, "ties": [], "viol": [], "strata": {}, "keys": []}
+    ans = drv.results([{"op": "jsontext.loads", "text": t} for t in texts])
+    for t, a in zip(texts, ans):
+        out["n"] += 1
+        real = real_json_loads(t)
+        k = "json_doc_text:" + ("ok" if "ok" in real else "error")
+        out["strata"][k] = out["strata"].get(k, 0) + 1
+        if a == {"err": "loneSurrogate"} or (a == {"err": "unsupported"} and "ok" not in real):
+            continue        # outside the model (a later syntax error may win on the real side)
+        if not json_loads_agree(a, real) and len(out["ties"]) < 10:
+            out["ties"].append({"what": "json.loads: model and real differ", "text": t, "model": a, "real": real})
+    out["keys"] = ["jsondoc:" + t for t in texts]
+    return out
+
+
+def real_json_reader_bytes(data: bytes, tmp: str, idx: int):
+    p = os.path.join(tmp, "b%d.json" % idx)
+    with open(p, "wb") as f:
+        f.write(data)
+    got = read_sheets("json", p)
+    os.remove(p)
+    if "__exc__" in got:
+        m = got["__exc__"]
+        if m.startswith("JSONDecodeError"):
+            for name, needle in JSON_ERR_NEEDLES.items():
+                if needle in m:
+                    return {"__err__": name}
+            return {"__err__": m}
+        if m.startswith("UnicodeDecodeError"):
+            return {"__err__": "decode"}
+        if m.startswith("InvalidDimensions"):
+            return {"__err__": "invalidDimensions"}
+        if m.split(":")[0] in ("KeyError", "AttributeError", "TypeError", "UnsupportedFormat", "IndexError"):
+            return {"__err__": "shape"}
+        return {"__err__": m}
+    return got
+
+
+def gen_json_doc_variant(rng: random.Random):
+    """a workbook as JSON text in a style `to_json` never writes, or damaged"""
+    sheets = [gen_sheet(rng, "s%d" % i, min_rows=rng.choice([0, 1, 1])) for i in range(rng.randint(0, 3))]
+    for s in sheets:
+        if rng.random() < 0.3:
+            for r in s["rows"]:
+                for j in range(len(r)):
+                    if rng.random() < 0.3:
+                        r[j] = gen_csv_cell(rng)
+    book = {"meta": {"version": "0.1.0"}, "sheets": {}}
+    for s in sheets:
+        q = rng.random()
+        if q < 0.7:
+            book["sheets"][s["name"]] = [dict(zip(s["headers"], r)) for r in s["rows"]]
+        elif q < 0.85:
+            book["sheets"][s["name"]] = [list(r) for r in s["rows"]]
+        else:
+            rows = [dict(zip(s["headers"], r)) for r in s["rows"]]
+            if rows:
+                rows[rng.randrange(len(rows))].pop(s["headers"][0], None)      # ragged
+            book["sheets"][s["name"]] = rows
+    if rng.random() < 0.15:
+        book = {k: book[k] for k in ("sheets", "meta")}
+    if rng.random() < 0.05:
+        del book["meta"]
+    style = rng.randrange(8)
+    if style == 0:
+        text = json.dumps(book, ensure_ascii=False, separators=(",", ":"))
+    elif style == 1:
+        text = json.dumps(book, ensure_ascii=True, indent=4)
+    elif style == 2:
+        text = json.dumps(book, ensure_ascii=False, indent="\t")
+    elif style == 3:
+        text = json.dumps(book, ensure_ascii=False, indent=2).replace("\n", "\r\n")
+    elif style == 4:
+        text = "  \n" + json.dumps(book, ensure_ascii=False) + "\n\n"
+    else:
+        text = json.dumps(book, ensure_ascii=False, indent=2)
+    k = rng.randrange(12)
+    if k == 0 and text:
+        i = rng.randrange(len(text))
+        text = text[:i] + text[i + 1:]
+    elif k == 1:
+        i = rng.randint(0, len(text))
+        text = text[:i] + rng.choice([",", "}", "]", "\"", " ", "\n", "{", ":", "x", "\\"]) + text[i:]
+    elif k == 2:
+        text = "\ufeff" + text
+    elif k == 3:
+        text = text + rng.choice(["x", "{}", ",", " \n "])
+    elif k == 4:
+        text = text.replace("\"sheets\"", "\"Sheets\"", 1)
+    elif k == 5 and "\"s0\"" in text:
+        text = text.replace("\"s0\"", "\"s1\"", 1)           # duplicate sheet name in the TEXT: the later one wins, at the first position
+    data = text.encode("utf-8")
+    if rng.random() < 0.05 and data:
+        i = rng.randrange(len(data))
+        data = data[:i] + bytes([rng.choice([0x80, 0xC0, 0xFF, 0xED])]) + data[i + 1:]
+    return data
+
+
+def json_doc_file_worker(seeds):
+    tmp = tempfile.mkdtemp(prefix="c14jd_")
+    drv = core.Driver()
+    out = {"n": 0, "ties": [], "viol": [], "strata": {}, "keys": []}
+    try:
+        datas = [gen_json_doc_variant(random.Random(sd)) for sd in seeds]
+        ans = drv.results([{"op": "jsontext.loadbook", "bytes": list(d)} for d in datas])
+        for i, (d, a) in enumerate(zip(datas, ans)):
+            out["n"] += 1
+            real = real_json_reader_bytes(d, tmp, i)
+            mt = model_book(a)
+            k = "json_doc_file:" + (real["__err__"] if "__err__" in real and real["__err__"] in ("shape", "decode", "invalidDimensions") else "syntax_error" if "__err__" in real else "read_ok")
+            out["strata"][k] = out["strata"].get(k, 0) + 1
+            if mt in ({"__err__": "unsupported"}, {"__err__": "loneSurrogate"}):
+                continue
+            if mt != real and len(out["ties"]) < 10:
+                out["ties"].append({"what": "JSONSheetReader on a foreign / damaged JSON file: model and real differ", "text": d.decode("utf-8", "backslashreplace")[:800], "model": str(mt)[:400], "real": str(real)[:400]})
+            out["keys"].append("jsondocfile:" + d.hex()[:200] + str(len(d)))
+    finally:
+        shutil.rmtree(tmp, ignore_errors=True)
+    return out
+
+
 # --------------------------------------------------------------------------- worker: compile
 
 
@@ -1627,13 +1826,14 @@ def run(ck: core.Check):
         "workbook / grid / text"
     )
     ck.assumptions = [
-        "openpyxl writer/reader, tablib's xlsx import and json dumps/loads deliver the written grid (exercised on every case, not modelled)",
+        "openpyxl writer/reader and tablib's xlsx import deliver the written grid (exercised on every case, not modelled)",
+        "the Lean model of the json library (Rpft/JsonText.lean: encode_basestring, _make_iterencode with indent=2, scanstring_unicode / scan_once / _parse_object / _parse_array of _json.c, JSONDecoder.decode, restricted to strings / arrays / objects; recursion limit not modelled) is the real library: compared exhaustively on small texts, on every convert output of the run and on foreign / damaged files, not proved from the C source",
         "the Lean model of the csv library (Rpft/Csv.lean: join_append_data / csv_writerow / parse_process_char / Reader_iternext of CPython 3.12 _csv.c, text-file line iteration with newline='', strict UTF-8) is the real library: compared exhaustively on small inputs and randomly on larger ones on every run, not proved from the C source",
         "the harness writers are what 'the same workbook content' means: csv.writer (excel dialect, UTF-8, no BOM) and openpyxl text cells",
         "JSON cell values are strings (what the three readers produce); object key order is kept by json and by dict",
     ]
     ck.partial_gap = [
-        "the XLSX byte format and the JSON document structure (openpyxl; json objects / arrays / indentation / whitespace) are library code: exercised, not modelled (C14_full holds relative to their faithfulness: theorem c14_partial); JSON string literals are modelled and round-trip (json_string_roundtrip) but are not yet composed into a document-level theorem; the CSV byte format is modelled and its round trip proved for all grids whose cells fit csv.field_size_limit() = 131072 characters (a guard that every workbook storable as XLSX satisfies: XLSX cell text is capped at 32767 characters)",
+        "the XLSX byte format (openpyxl: zip + XML; tablib's xlsx import) is library code: exercised, not modelled (C14_full holds relative to its faithfulness: theorem c14_partial); the CSV byte format is modelled and its round trip proved for all grids whose cells fit csv.field_size_limit() = 131072 characters (a guard that every workbook storable as XLSX satisfies: XLSX cell text is capped at 32767 characters); the JSON byte format is modelled (values of strings / arrays / objects) and its round trip proved for all workbooks of rectangular sheets with distinct headers, at least one row and distinct names",
         "that create_flows is a function of reader.sheets (convert_then_compile takes the compiler as an arbitrary function) is exercised by the compile stream, not proved",
         "GoogleSheetReader is not covered (no network)",
     ]
@@ -1679,6 +1879,32 @@ def run(ck: core.Check):
     fold(ck, par.pmap(csv_utf8_worker, core.shard(seeds(n_utf8), par.NPROC)), "csv_utf8_cases")
     # JSON string literals: encode_basestring / scanstring
     fold(ck, par.pmap(json_string_worker, json_string_tasks(ck, quick)), "json_string_cases")
+    import itertools
+
+    doc_texts = ["".join(q) for k in range(0, 6 if quick else 7) for q in itertools.product(JSON_DOC_ALPHA, repeat=k)]
+    fold(ck, par.pmap(json_doc_text_worker, core.shard(doc_texts, par.NPROC * 2)), "json_doc_texts_exhaustive")
+    fold(ck, par.pmap(json_doc_file_worker, core.shard(seeds(600 if quick else 6000), par.NPROC)), "json_doc_files")
+    tmpj = tempfile.mkdtemp(prefix="c14jk_")
+    try:
+        drvj = core.Driver()
+        kernel_docs = [("{\"sheets\":{\"s\":[{\"a\":\"1\",\"b\":\"\"}]}}", {"s": {"headers": ["a", "b"], "rows": [["1", ""]]}}),
+                       (" {\r\n\t\"sheets\" : { \"s\" : [ [ \"1\" , \"2\" ] ] } , \"meta\" : { } } \n", {"s": {"headers": None, "rows": [["1", "2"]]}}),
+                       ("{\"sheets\": {\"s\": [{\"a\": \"1\"}, {\"a\": \"2\", \"b\": \"3\"}]}}", {"__err__": "invalidDimensions"}),
+                       ("{\"sheets\": {\"s\": [{\"a\": \"1\"},]}}", {"__err__": "expectingValue"}), ("{\"meta\": {}}", {"__err__": "shape"}),
+                       ("{\"a\": \"1\", \"b\": \"2\", \"a\": \"3\"}", None)]
+        for i, (t, want_t) in enumerate(kernel_docs):
+            ck.case("json:kernel:doc:" + t)
+            ck.count("json_kernel_facts_replayed")
+            if want_t is None:
+                if list(json.loads(t).items()) != [("a", "3"), ("b", "2")]:
+                    ck.tie_break("kernel-checked fact needs_unique_keys does not hold on the real json.loads", {"text": t, "real": json.loads(t)})
+                continue
+            real = real_json_reader_bytes(t.encode("utf-8"), tmpj, i)
+            a = model_book(drvj.results([{"op": "jsontext.loadbook", "bytes": list(t.encode("utf-8"))}])[0])
+            if not (a == real == want_t):
+                ck.tie_break("kernel-checked fact json_reader_facts does not hold on the real JSON reader", {"text": t, "kernel": want_t, "model": a, "real": real})
+    finally:
+        shutil.rmtree(tmpj, ignore_errors=True)
     kernel_json = [("\"\\/\\u00E9\\ud83d\\uDE00\"x", {"ok": ["/é\U0001F600", "x"]}), ("\"a\nb\"", {"err": "controlChar"}), ("\"\\a\"", {"err": "invalidEscape"}),
                    ("\"\\u12\"", {"err": "invalidUnicodeEscape"}), ("\"\\u0041", {"err": "invalidUnicodeEscape"}), ("\"\\ud83d\\uzzzz\"", {"err": "invalidUnicodeEscape"}),
                    ("\"abc", {"err": "unterminated"})]
@@ -1698,7 +1924,9 @@ def run(ck: core.Check):
             "csv_text:field_with_line_end", "csv_file:cell_cr", "csv_file:cell_crlf", "csv_file:cell_quote", "csv_file:mutated:invalidDimensions",
             "csv_file:mutated:decode", "csv_file:mutated:other_sheet", "csv_utf8:rejected", "csv_utf8:decodes",
             "json_enc:escapes", "json_enc:verbatim", "json_scan:ok", "json_scan:controlChar", "json_scan:invalidEscape", "json_scan:invalidUnicodeEscape",
-            "json_scan:unterminated", "json_scan:lone_surrogate_unrepresentable"]
+            "json_scan:unterminated", "json_scan:lone_surrogate_unrepresentable", "json_doc_text:ok", "json_doc_text:error", "json_doc_file:read_ok",
+            "json_doc_file:syntax_error", "json_doc_file:shape", "json_doc_file:invalidDimensions", "json_doc_file:decode", "json_bytes_through_model_dump",
+            "json_bytes_through_model_load"]
     missing = [k for k in need if not ck.strata.get(k)]
     clean = not ck.violations and not ck.tie_breaks      # never let the self-check mask a failure
     if missing and clean:
